@@ -13,6 +13,14 @@ const fee = 10000
 
 func (s *sim) nextEntropy() int64 { s.entropy++; return s.entropy }
 
+// stranger returns a funded key other than k.
+func (s *sim) stranger(k chain.Key) chain.Key {
+	if s.w.Accts[2].Addr.Equals(k.Addr) {
+		return s.w.Accts[1]
+	}
+	return s.w.Accts[2]
+}
+
 // claimTx builds a MsgClaim transaction for an evidence set.  variant:
 //
 //	ok | wrongsigner | inflate (declares more relays than the tree has) | badroot (lower != 0 -> ValidateBasic) | exp (non-zero expiration -> ValidateBasic)
@@ -20,9 +28,10 @@ func (s *sim) claimTx(e *evSet, variant string, pool *[]*evSet) txReq {
 	m := pc.MsgClaim{SessionHeader: e.header(), MerkleRoot: e.root, TotalProofs: e.total, FromAddress: e.node.Addr, EvidenceType: e.et}
 	signer := e.node
 	anteOK := true
+	dup := false
 	switch variant {
 	case "wrongsigner":
-		signer = s.w.Accts[2]
+		signer = s.stranger(e.node)
 		anteOK = false
 	case "badroot":
 		m.MerkleRoot.Range.Lower = 1
@@ -35,7 +44,7 @@ func (s *sim) claimTx(e *evSet, variant string, pool *[]*evSet) txReq {
 	key := s.claimKeyStr(m.FromAddress, m.SessionHeader, m.EvidenceType)
 	return txReq{bytes: bz, kind: "claim-" + variant, nontrv: false,
 		pre: func(ctx sdk.Context) string {
-			return fmt.Sprintf("claim %s total=%d rootu=%d signer=%s | %s", key, m.TotalProofs, m.MerkleRoot.Range.Upper, s.name(signer.Addr.String()), s.claimOracle(ctx, m, anteOK))
+			return fmt.Sprintf("claim %s total=%d rootu=%d exp=%d signer=%s | %s", key, m.TotalProofs, m.MerkleRoot.Range.Upper, m.ExpirationHeight, s.name(signer.Addr.String()), s.claimOracle(ctx, m, dup, anteOK))
 		},
 		post: func(code uint32, _ string) {
 			if code == 0 {
@@ -60,6 +69,7 @@ func (s *sim) proofTx(e *evSet, variant string, reqIdx int64) txReq {
 	et := e.et
 	signer := e.node
 	anteOK := true
+	dup := false
 	build := func(i int64) (pc.MerkleProof, pc.Proof) {
 		cp := make([]pc.Proof, len(e.proofs))
 		copy(cp, e.proofs)
@@ -105,16 +115,15 @@ func (s *sim) proofTx(e *evSet, variant string, reqIdx int64) txReq {
 			et = pc.RelayEvidence
 		}
 	case "wrongsigner":
-		signer = s.w.Accts[2]
+		signer = s.stranger(e.node)
 		anteOK = false
 	}
 	m := pc.MsgProof{MerkleProof: mp, Leaf: leaf, EvidenceType: et}
 	var bz []byte
 	if variant == "samebytes" && e.lastProof != nil {
+		// the very same bytes again (same block or a later one): baseapp's transaction cache / the tx indexer reject it
 		bz = e.lastProof
-		// the duplicate-transaction check consults the tx indexer, which is fed after a block: a
-		// copy in a later block is rejected by the ante handler, a copy in the same block is not
-		anteOK = e.lastProofH == s.n.Height+1
+		dup = true
 	} else {
 		bz = chain.SignTx(s.n.ChainID, signer, &m, fee, s.nextEntropy(), "")
 		if anteOK {
@@ -124,7 +133,7 @@ func (s *sim) proofTx(e *evSet, variant string, reqIdx int64) txReq {
 	key := s.claimKeyStr(leaf.GetSigner(), leaf.SessionHeader(), et)
 	return txReq{bytes: bz, kind: "proof-" + variant,
 		pre: func(ctx sdk.Context) string {
-			return fmt.Sprintf("proof %s leaf=relay tidx=%d signer=%s | %s", key, mp.TargetIndex, s.name(signer.Addr.String()), s.proofOracle(ctx, m, anteOK))
+			return fmt.Sprintf("proof %s leaf=relay tidx=%d signer=%s | %s", key, mp.TargetIndex, s.name(signer.Addr.String()), s.proofOracle(ctx, m, dup, anteOK))
 		},
 		post: func(code uint32, _ string) {
 			if code == 0 {
@@ -219,7 +228,17 @@ func (s *sim) history(blocks int) {
 		var txs []txReq
 		if r.Chance(3, 5) {
 			id++
-			pool = append(pool, s.newEvidence(id, H))
+			e := s.newEvidence(id, H)
+			pool = append(pool, e)
+			if r.Chance(1, 6) {
+				// the same node and session under the other evidence type as well
+				id++
+				et2 := pc.RelayEvidence
+				if e.et == pc.RelayEvidence {
+					et2 = pc.ChallengeEvidence
+				}
+				pool = append(pool, s.mkEvidence(id, e.node, e.app, e.chainID, e.S, et2, []int{5, 7, 9}[r.Intn(3)], false))
+			}
 		}
 		for _, e := range pool {
 			if e.gone || len(txs) >= 4 {
